@@ -594,7 +594,8 @@ class Sample:
         for pos, cov in norm.items():
             if len(cov) == 0:
                 continue
-            coverage.setdefault(pos, {})["_"] = cov
+            # copy: `norm` is written to the debug dump afterwards and must stay as read
+            coverage.setdefault(pos, {})["_"] = list(cov)
         bounds = min(self.gene.chr_to_ref), max(self.gene.chr_to_ref)
         for (pos, mut), cov in muts.items():
             if pos not in coverage:
